@@ -11,3 +11,20 @@ func (s *Storer) VerifGcLog() { s.gcLog() }
 // VerifStopCollector stops the background collector goroutine; nothing else in
 // the Storer depends on s.closer.
 func (s *Storer) VerifStopCollector() { s.closer.Close(nil) }
+
+// VerifRefs returns the reference counts of the indexed stream segments
+// (left -> rwRef) and of the snapshot (-1 -> rwRef), for leak checks by
+// harnesses outside this package.
+func (s *Storer) VerifRefs() map[int64]int32 {
+	ds := s.getDataSet()
+	ds.mux.RLock()
+	defer ds.mux.RUnlock()
+	m := map[int64]int32{}
+	for _, a := range ds.aofSegs {
+		m[a.left] = a.Ref()
+	}
+	if ds.rdb != nil {
+		m[-1] = ds.rdb.Ref()
+	}
+	return m
+}
